@@ -21,10 +21,13 @@ import (
 // BuildCase is one end-to-end input: files of a template tree (Entry is built with
 // BuildTemplate) or one program file (Kind 'p', built with Build).
 type BuildCase struct {
-	Kind  byte // 't' or 'p'
+	Kind  byte // 't' or 'p'; 'T' and 'P': the same with BuildOptions.AllowGoStmt
 	Entry string
 	Files map[string][]byte
 }
+
+// Program reports whether the case is built with Build (otherwise: BuildTemplate).
+func (b BuildCase) Program() bool { return b.Kind == 'p' || b.Kind == 'P' }
 
 func (b BuildCase) names() []string {
 	n := make([]string, 0, len(b.Files))
@@ -163,16 +166,20 @@ func BuildInChild(b BuildCase) (res BuildResult) {
 			}
 		}()
 		var err error
-		if b.Kind == 'p' {
+		var opts *scriggo.BuildOptions
+		if b.Kind == 'T' || b.Kind == 'P' {
+			opts = &scriggo.BuildOptions{AllowGoStmt: true}
+		}
+		if b.Program() {
 			var p *scriggo.Program
-			p, err = scriggo.Build(rec, nil)
+			p, err = scriggo.Build(rec, opts)
 			if err == nil {
 				stage = "disasm"
 				p.Disassemble("main")
 			}
 		} else {
 			var t *scriggo.Template
-			t, err = scriggo.BuildTemplate(rec, b.Entry, nil)
+			t, err = scriggo.BuildTemplate(rec, b.Entry, opts)
 			if err == nil {
 				stage = "disasm"
 				for _, n := range []int{-1, 0, 1, 2, 3, 5, 8, 10, 13} { // the limit is in runes: texts are cut
